@@ -9,6 +9,7 @@ import (
 	"go/token"
 	"math/rand"
 	"os"
+	"path/filepath"
 	"regexp"
 	"strings"
 
@@ -24,7 +25,10 @@ type c03Input struct {
 	Src     string `json:"src"`
 	Variant string `json:"variant"`
 	Managed bool   `json:"managed,omitempty"` // decorate with the goast identifier resolver, print with import management (accurate package names)
+	Dir     bool   `json:"dir,omitempty"`     // the file is parsed as one of two files of a directory (ParseDir); the partner holds raw strings and a block comment over many lines
 }
+
+var c03Scratch string
 
 var selGapRe = regexp.MustCompile(`\b([a-z][A-Za-z0-9]*)\.([A-Z][A-Za-z0-9]*)`)
 
@@ -107,7 +111,7 @@ func c03Check(in c03Input) (key, what string) {
 		return
 	}
 	// the same text with those lines emptied must pass (or fail only through a recorded CRLF finding)
-	cleaned := c03Input{Src: wsOnlyLine.ReplaceAllString(in.Src, "$1"), Variant: in.Variant, Managed: in.Managed}
+	cleaned := c03Input{Src: wsOnlyLine.ReplaceAllString(in.Src, "$1"), Variant: in.Variant, Managed: in.Managed, Dir: in.Dir}
 	if k2, _ := c03CheckLineEndings(cleaned); k2 == "" || strings.HasPrefix(k2, "crlf-") {
 		return "whitespace-only-blank-line-lost", "only with white space on blank lines (the same text with those lines emptied passes): " + what
 	}
@@ -119,11 +123,11 @@ func c03CheckLineEndings(in c03Input) (key, what string) {
 	if key == "" || !strings.Contains(in.Src, "\r\n") || strings.HasPrefix(key, "crlf-") {
 		return
 	}
-	lf := c03Input{Src: strings.ReplaceAll(in.Src, "\r\n", "\n"), Variant: in.Variant, Managed: in.Managed}
+	lf := c03Input{Src: strings.ReplaceAll(in.Src, "\r\n", "\n"), Variant: in.Variant, Managed: in.Managed, Dir: in.Dir}
 	if k2, _ := c03CheckRaw(lf); k2 == "" {
 		// the recorded defect is about BLANK lines (the decorator peeks one byte ahead and does not see
 		// "\r\n\r\n"): with the empty lines -- and only those -- ended by a bare "\n" it must pass
-		mixed := c03Input{Src: crlfEmptyLine.ReplaceAllString(in.Src, "\n"), Variant: in.Variant, Managed: in.Managed}
+		mixed := c03Input{Src: crlfEmptyLine.ReplaceAllString(in.Src, "\n"), Variant: in.Variant, Managed: in.Managed, Dir: in.Dir}
 		if k3, w3 := c03CheckRaw(mixed); k3 != "" {
 			return "c03-crlf", "CRLF only, and not through blank lines (fails with LF-terminated empty lines too): " + w3
 		}
@@ -183,6 +187,52 @@ func c03CheckRaw(in c03Input) (key, what string) {
 		out = buf.String()
 		if pm == "" && perr == nil && !sameImports(in.Src, out) {
 			return "", "" // the import manager changed the import declarations (an unused or twice-imported path): C07's business
+		}
+	} else if in.Dir {
+		name := c01PackageName(in.Src)
+		if name == "" || c03Scratch == "" {
+			return "", ""
+		}
+		// the partner: multi-line raw strings and a block comment over the first ninety lines, and line
+		// structure of its own below (whichever file is decorated first, the other has something to lose)
+		var pb strings.Builder
+		pb.WriteString("package " + name + "\n\nvar partnerRaw = `")
+		for i := 0; i < 60; i++ {
+			pb.WriteString("r\n")
+		}
+		pb.WriteString("`\n\n/*\n")
+		for i := 0; i < 30; i++ {
+			pb.WriteString("   c\n")
+		}
+		pb.WriteString("*/\n")
+		dir, e := os.MkdirTemp(c03Scratch, "c03d-")
+		if e != nil {
+			return "", ""
+		}
+		defer os.RemoveAll(dir)
+		os.WriteFile(filepath.Join(dir, "x.go"), []byte(in.Src), 0644)
+		os.WriteFile(filepath.Join(dir, "y.go"), []byte(pb.String()), 0644)
+		found := false
+		pm = safely(func() {
+			dec := decorator.NewDecorator(token.NewFileSet())
+			pkgs, e := dec.ParseDir(dir, nil, parser.ParseComments)
+			if e != nil {
+				perr = e
+				return
+			}
+			for _, p := range pkgs {
+				for fn, df := range p.Files {
+					if filepath.Base(fn) == "x.go" {
+						var buf bytes.Buffer
+						perr = decorator.NewRestorer().Fprint(&buf, df)
+						out = buf.String()
+						found = true
+					}
+				}
+			}
+		})
+		if pm == "" && perr == nil && !found {
+			return "", ""
 		}
 	} else {
 		f, err = decorator.Parse(in.Src)
@@ -423,6 +473,7 @@ var c03Known = []string{
 }
 
 func c03Prop(c *Ctx) {
+	c03Scratch = filepath.Join(c.Verif, ".build")
 	c.Res.Rule = "hand corpus + $GOROOT/src sample, each in the variants: as is, CRLF, BOM, space-indented, comments and blank lines sprinkled (mangled), every blank line doubled, a block comment after every line; compared with gofmt(input) on tokens and with the input on comment texts; non-trivial = distinct (file, variant)"
 	var srcs []string
 	srcs = append(srcs, sinkSources...)
@@ -444,6 +495,21 @@ func c03Prop(c *Ctx) {
 			if key, what := c03Check(in); key != "" {
 				in.Src = clipKeep(in.Src)
 				c.Res.fail(key, what, in)
+			}
+			// the same text as one of two files of a directory (ParseDir), twice: the order in which the files
+			// of a package are decorated follows map iteration
+			if v == "asis" || v == "blank3" {
+				for rep := 0; rep < 2; rep++ {
+					in2 := in
+					in2.Dir = true
+					c.Res.Evaluations++
+					c.Res.hist("c03-variant", v+"+directory")
+					if key, what := c03Check(in2); key != "" {
+						in2.Src = clipKeep(in2.Src)
+						c.Res.fail(key, what, in2)
+						break
+					}
+				}
 			}
 			// the same text through the import-managing pair (files with imports; three variants)
 			if (v == "asis" || v == "selgaps" || v == "mangled") && strings.Contains(src, "import") {
@@ -499,6 +565,7 @@ func init() {
 		if err := json.Unmarshal(raw, &in); err != nil || in.Src == "" {
 			return false, "not a C03 generated input"
 		}
+		c03Scratch = filepath.Join(c.Verif, ".build")
 		key, what := c03Check(in)
 		return key != "", what
 	}
